@@ -210,6 +210,14 @@ func (n *netRun) libCall(m *NetMsg, r *hx.Rng) {
 			call("btc.NewSignature", func() { btc.NewSignature(b) })
 		}
 	case "verify-script":
+		if r.Chance(0.5) {
+			// prefer a taproot spend: its witness is parsed (annex, control block, leaf script) outside the interpreter's recover()
+			for tries := 0; tries < 8 && !(len(n.lastSpent) == 34 && n.lastSpent[0] == 0x51); tries++ {
+				if t := n.someTx(r); t != nil {
+					ltx, txb = t, t.Bytes(true)
+				}
+			}
+		}
 		if ltx == nil {
 			return
 		}
@@ -219,8 +227,25 @@ func (n *netRun) libCall(m *NetMsg, r *hx.Rng) {
 		}
 		tx.SetHash(txb[:le])
 		spk := mutateBytes(r, pk)
+		if r.Chance(0.5) && n.lastSpent != nil {
+			spk = exact(n.lastSpent) // the script this input really spends: the witness below is (nearly) the right one for it
+		}
 		if r.Chance(0.5) {
 			tx.TxIn[0].ScriptSig = mutateBytes(r, tx.TxIn[0].ScriptSig)
+		}
+		if tx.SegWit != nil && len(tx.SegWit[0]) == 1 && len(spk) == 34 && spk[0] == 0x51 && r.Chance(0.5) {
+			tx.SegWit[0] = append(tx.SegWit[0], []byte{0x51}, []byte{0xc0}) // a key-path spend turned into a script-path attempt
+		}
+		if tx.SegWit != nil && len(tx.SegWit[0]) >= 2 && r.Chance(0.5) {
+			// the last witness item (control block of a script-path spend, public key, witness script) cut or padded to a length at an edge
+			last := len(tx.SegWit[0]) - 1
+			it := tx.SegWit[0][last]
+			want := []int{0, 1, 2, 31, 32, 33, 34, 64, 65, 66, 97}[r.Intn(11)]
+			for len(it) < want {
+				it = append(it, byte(r.Intn(256)))
+			}
+			tx.SegWit[0][last] = exact(it[:want])
+			n.out.Probe("lib_witness_last_item_at_an_edge_length", 1)
 		}
 		if r.Chance(0.3) && tx.SegWit != nil && len(tx.SegWit[0]) > 0 {
 			k := r.Intn(len(tx.SegWit[0]))
